@@ -233,6 +233,21 @@ func (e *Engine) netBuiltin(env *Env, name string, ex *SExpr) (Val, bool) {
 		return Val{}, false
 	}
 	switch name {
+	case "inAt", "outAt":
+		// inAt(conn, i) / outAt(conn, i): byte i of the ghost stream read from / written to the connection
+		hn := "L!wire!" + name[:len(name)-2] + "arr"
+		heapSortOf[hn] = "(Array Int (Array Int Int))"
+		return Val{S: sel(sel(env.heap(hn, "(Array Int (Array Int Int))"), streamKey(arg(0))), arg(1).S), T: types.Typ[types.Uint8]}, true
+	case "inPos", "outPos":
+		// inPos(conn) / outPos(conn): number of bytes consumed from / written to the connection so far
+		hn := "L!wire!" + name[:len(name)-3] + "pos"
+		heapSortOf[hn] = "(Array Int Int)"
+		pv := sel(env.heap(hn, "(Array Int Int)"), streamKey(arg(0)))
+		if env.quant == 0 && env.st != nil {
+			// a connection carries fewer than 2^62 bytes (so that stream positions are machine integers)
+			env.st.assume(fmt.Sprintf("(and (<= 0 %s) (< %s 4611686018427387904))", pv, pv))
+		}
+		return Val{S: pv, T: tInt}, true
 	case "tlsExporter":
 		// tlsExporter(conn, label, context, n): this connection's exported keying material
 		conn := arg(0)
@@ -288,4 +303,92 @@ func asn1Total(t types.Type) bool {
 		return true
 	}
 	return false
+}
+
+// ---------------------------------------------------------------------------------------
+// ghost byte streams of connections (C17): an unbounded array of bytes and a cursor per direction. The bytes a peer will
+// send are arbitrary but fixed (reading only moves the cursor); writing stores bytes at the cursor and moves it.
+
+func streamKey(conn Val) string {
+	if sortOf(conn.T) == "Iface" {
+		return ifVal(conn.S)
+	}
+	return conn.S
+}
+
+func (e *Engine) streamHeaps(st *State, dir string) (arr, pos string) {
+	an, pn := "L!wire!"+dir+"arr", "L!wire!"+dir+"pos"
+	heapSortOf[an] = "(Array Int (Array Int Int))"
+	heapSortOf[pn] = "(Array Int Int)"
+	return an, pn
+}
+
+// streamRead: a successful ReadFull(conn, buf) delivers the next len(buf) bytes of the incoming stream.
+func (e *Engine) streamRead(st *State, fr *Frame, reader, buf Val, n, er Val) {
+	an, pn := e.streamHeaps(st, "in")
+	k := streamKey(reader)
+	arr := sel(st.heap(an, heapSortOf[an]), k)
+	ph := st.heap(pn, heapSortOf[pn])
+	p := sel(ph, k)
+	st.assume(fmt.Sprintf("(>= %s 0)", p))
+	et := buf.T.Underlying().(*types.Slice).Elem()
+	hn, hs := elemHeapName(et)
+	row := sel(st.heap(hn, hs), slRef(buf.S))
+	ok := eq(ifTyp(er.S), "0")
+	st.assume(implies(ok, fmt.Sprintf("(forall ((i!w Int)) (! (=> (and (<= 0 i!w) (< i!w %s)) (= (select %s %s) (select %s (+ %s i!w)))) :pattern ((select %s %s))))",
+		slLen(buf.S), row, ix(slOff(buf.S), "i!w"), arr, p, row, ix(slOff(buf.S), "i!w"))))
+	st.assume(fmt.Sprintf("(forall ((i!w Int)) (! (and (<= 0 (select %s i!w)) (< (select %s i!w) 256)) :pattern ((select %s i!w))))", arr, arr, arr))
+	np := st.freshConst("inpos", "Int")
+	st.assume(fmt.Sprintf("(and (>= %s %s) (<= %s (+ %s %s)))", np, p, np, p, slLen(buf.S)))
+	st.assume(implies(ok, eq(np, fmt.Sprintf("(+ %s %s)", p, slLen(buf.S)))))
+	st.setHeap(pn, heapSortOf[pn], store(ph, k, np))
+	e.assumptions["ghost byte streams: the bytes a connection will deliver are arbitrary but fixed; ReadFull consumes them in order; a successful Write appends the buffer to the outgoing stream (partial writes before an error leave the stream in an unspecified state)"] = true
+}
+
+// streamWrite: conn.Write(b): on success the bytes of b are appended to the outgoing stream.
+func (e *Engine) streamWrite(st *State, conn, b Val, resT types.Type) Val {
+	an, pn := e.streamHeaps(st, "out")
+	k := streamKey(conn)
+	ah := st.heap(an, heapSortOf[an])
+	ph := st.heap(pn, heapSortOf[pn])
+	arr, p := sel(ah, k), sel(ph, k)
+	st.assume(fmt.Sprintf("(>= %s 0)", p))
+	n := st.freshVal("wroten", tInt)
+	er := st.freshVal("writeerr", resTypeAt(resT, 1))
+	ok := eq(ifTyp(er.S), "0")
+	st.assume(fmt.Sprintf("(and (<= 0 %s) (<= %s %s))", n.S, n.S, slLen(b.S)))
+	st.assume(implies(ok, eq(n.S, slLen(b.S))))
+	et := b.T.Underlying().(*types.Slice).Elem()
+	hn, hs := elemHeapName(et)
+	row := sel(st.heap(hn, hs), slRef(b.S))
+	narr := st.freshConst("outarr", "(Array Int Int)")
+	st.assume(fmt.Sprintf("(forall ((i!w Int)) (! (=> (< i!w %s) (= (select %s i!w) (select %s i!w))) :pattern ((select %s i!w))))", p, narr, arr, narr))
+	st.assume(implies(ok, fmt.Sprintf("(forall ((j!w Int)) (! (=> (and (<= %s j!w) (< j!w (+ %s %s))) (= (select %s j!w) (select %s %s))) :pattern ((select %s j!w))))",
+		p, p, slLen(b.S), narr, row, ix(slOff(b.S), "(- j!w "+p+")"), narr)))
+	np := st.freshConst("outpos", "Int")
+	st.assume(fmt.Sprintf("(>= %s %s)", np, p))
+	st.assume(implies(ok, eq(np, fmt.Sprintf("(+ %s %s)", p, slLen(b.S)))))
+	st.setHeap(an, heapSortOf[an], store(ah, k, narr))
+	st.setHeap(pn, heapSortOf[pn], store(ph, k, np))
+	e.assumptions["ghost byte streams: the bytes a connection will deliver are arbitrary but fixed; ReadFull consumes them in order; a successful Write appends the buffer to the outgoing stream (partial writes before an error leave the stream in an unspecified state)"] = true
+	return tupleOf(resT, n, er)
+}
+
+func registerWireHeaps() {
+	for _, n := range []string{"in", "out"} {
+		heapSortOf["L!wire!"+n+"arr"] = "(Array Int (Array Int Int))"
+		heapSortOf["L!wire!"+n+"pos"] = "(Array Int Int)"
+	}
+}
+
+func init() {
+	registerWireHeaps()
+	libModels["(*crypto/tls.Conn).Write"] = func(e *Engine, st *State, fr *Frame, args []Val, resT types.Type, pos token.Pos, ins ssa.Instruction) Val {
+		used(e, "crypto/tls.Conn.Write: total; on success the whole buffer is appended to the connection's outgoing ghost stream")
+		return e.streamWrite(st, args[0], args[1], resT)
+	}
+	ifaceModels["net.Conn.Write"] = func(e *Engine, st *State, fr *Frame, recv Val, args []Val, resT types.Type, pos token.Pos, ins ssa.Instruction) Val {
+		used(e, "net.Conn.Write: total; on success the whole buffer is appended to the connection's outgoing ghost stream")
+		return e.streamWrite(st, recv, args[0], resT)
+	}
 }
